@@ -45,7 +45,7 @@ func init() {
 				}
 				return 80_000
 			}, Run: c17Renderer,
-				Min: map[string]int64{"pairs": 60000, "A_truncated_stream": 10000, "A_decode_error": 10000, "A_mid_path": 5000, "B_gradient_from_default_registers": 5000, "B_smooth_first": 5000, "draws_compared": 50000, "pixel_pairs": 2000, "A_other_rectangle": 10000, "B_viewbox_is_A_viewbox_moved": 3000, "B_palette_equals_A_palette": 3000, "pixel_pairs_A_into_empty_rectangle": 500, "B_is_a_blank_graphic": 2000, "A_rectangle_same_size_other_origin": 3000, "B_degenerate_viewbox": 3000, "pixel_pairs_operator_left_by_A": 100}},
+				Min: map[string]int64{"pairs": 60000, "A_truncated_stream": 10000, "A_decode_error": 10000, "A_mid_path": 5000, "B_gradient_from_default_registers": 5000, "B_smooth_first": 5000, "draws_compared": 50000, "pixel_pairs": 2000, "A_other_rectangle": 10000, "B_viewbox_is_A_viewbox_moved": 3000, "B_palette_equals_A_palette": 3000, "pixel_pairs_A_into_empty_rectangle": 500, "B_is_a_blank_graphic": 2000, "A_rectangle_same_size_other_origin": 3000, "B_degenerate_viewbox": 3000, "pixel_pairs_operator_left_by_A": 100, "A_is_B_in_another_colour_theme": 5000, "B_applied_call_by_call_with_nonsensical_palette_entries": 5000, "A_writes_top_registers_by_wraparound_only": 5000}},
 		},
 	})
 }
@@ -69,13 +69,19 @@ func c17ProgramB(r *run.Rng) []rec.Op {
 	// a gradient whose stops/matrix are partly left at their defaults
 	if gradFirst || r.Bool() {
 		nst := r.Pick(2, 3)
-		ops = append(ops, rec.Op{K: rec.KSetNSel, Sel: 30}, rec.Op{K: rec.KSetNReg, Adj: 6, F: [6]float32{0.03}}) // other five matrix registers stay 0
-		ops = append(ops, rec.Op{K: rec.KSetNSel, Sel: 31})                                                       // NREG[30] stays 0: first offset
+		// number base 30, or 0: then the matrix lives in the top registers 58..63
+		// (five of them left at their default) and the first offset in NREG[0]
+		nb, cb := uint8(30), 30
+		if r.Chance(1, 3) {
+			nb, cb = 0, r.Pick(30, 61)
+		}
+		ops = append(ops, rec.Op{K: rec.KSetNSel, Sel: nb}, rec.Op{K: rec.KSetNReg, Adj: 6, F: [6]float32{0.03}}) // other five matrix registers stay 0
+		ops = append(ops, rec.Op{K: rec.KSetNSel, Sel: nb + 1})                                                   // NREG[nb] stays 0: first offset
 		for i := 1; i < nst; i++ {
 			ops = append(ops, rec.Op{K: rec.KSetNReg, Incr: true, F: [6]float32{float32(i) / float32(nst)}})
 		}
-		// stop colours: palette-initialised registers 30.. (unwritten)
-		ops = append(ops, rec.Op{K: rec.KSetCSel, Sel: 5}, rec.Op{K: rec.KSetCReg, Col: ivg.RGBAColor(gen.MakeGradientValue(30, 30, r.Intn(2), r.Intn(4), nst))})
+		// stop colours: palette-initialised registers cb.. (unwritten)
+		ops = append(ops, rec.Op{K: rec.KSetCSel, Sel: 5}, rec.Op{K: rec.KSetCReg, Col: ivg.RGBAColor(gen.MakeGradientValue(cb, int(nb), r.Intn(2), r.Intn(4), nst))})
 		ops = append(ops, rec.Op{K: rec.KStartPath, F: [6]float32{-20, -20}}, rec.Op{K: rec.KAbsLineTo, F: [6]float32{20, -20}}, rec.Op{K: rec.KAbsLineTo, F: [6]float32{0, 20}}, rec.Op{K: rec.KClosePathEndPath})
 	}
 	if gradFirst {
@@ -97,6 +103,19 @@ func c17ProgramB(r *run.Rng) []rec.Op {
 
 // c17HistoryA builds a dirtying history; kind says what it is.
 func c17HistoryA(c *run.Ctx, r *run.Rng) (ops []rec.Op, hires bool, kind string) {
+	if r.Chance(1, 8) {
+		// A history that keeps both selectors low and reaches the top registers
+		// only by wrap-around addressing (register (SEL-ADJ) mod 64 with SEL < ADJ):
+		// what Reset has to clear is every register, not the ones up to the highest
+		// selector value seen.
+		c.Count("A_writes_top_registers_by_wraparound_only", 1)
+		ops = append(ops, rec.Op{K: rec.KSetNSel, Sel: uint8(r.Intn(3))}, rec.Op{K: rec.KSetCSel, Sel: uint8(r.Intn(3))})
+		for adj := uint8(1); adj <= 6; adj++ {
+			ops = append(ops, rec.Op{K: rec.KSetNReg, Adj: adj, F: [6]float32{float32(r.Uniform(0.2, 2))}}, rec.Op{K: rec.KSetCReg, Adj: adj, Col: ivg.RGBAColor(gen.Premul(r))})
+		}
+		ops = append(ops, rec.Op{K: rec.KStartPath, F: [6]float32{-9, -9}}, rec.Op{K: rec.KAbsLineTo, F: [6]float32{9, -9}}, rec.Op{K: rec.KAbsLineTo, F: [6]float32{0, 9}}, rec.Op{K: rec.KClosePathEndPath})
+		return ops, r.Bool(), "well-formed"
+	}
 	o := gen.Opts{Styling: true, MaxPaths: 5, MaxRuns: 6, NoReset: r.Bool()}
 	if !o.NoReset {
 		vb := gen.ViewBox(r)
